@@ -93,6 +93,24 @@ static void codegen(const J &sc, Emitter &out)
         eqs.push(o);
     }
     ev.set("eqs", eqs);
+    // helper functions defined by the generated code (C17): names only
+    static const char *helpers[] = {"xor", "min", "max", "sec", "csc", "cot", "sech", "csch", "coth", "asec", "acsc", "acot", "asech", "acsch", "acoth"};
+    static const char *pyHelpers[] = {"eq_func", "neq_func", "lt_func", "leq_func", "gt_func", "geq_func", "and_func", "or_func", "xor_func", "not_func",
+                                      "min", "max", "sec", "csc", "cot", "sech", "csch", "coth", "asec", "acsc", "acot", "asech", "acsch", "acoth"};
+    J hc = J::arr(), hp = J::arr();
+    for (auto hname : helpers) {
+        if (c.find(std::string("double ") + hname + "(double") != std::string::npos) {
+            hc.push(hname);
+        }
+    }
+    for (auto hname : pyHelpers) {
+        if (py.find(std::string("def ") + hname + "(") != std::string::npos) {
+            hp.push(hname);
+        }
+    }
+    ev.set("helpersC", hc).set("helpersPy", hp);
+    ev.set("cStruct", genRunToJson(rc)).set("pyVariableCount", J(static_cast<long long>(rp.variableCount)));
+    ev.set("neqs", J(sc["eqs"].size()));
     out.emit(ev);
 }
 
